@@ -1224,6 +1224,8 @@ class ItemSpaceParent(ItemFactoryImpl, BaseNamespaceReferrer, HasFormula):
                 self.altfunc = BoundFunction(self)
                 self.altfunc.notify()
             else:
+                if not isinstance(formula, ParamFunc):  # May raise
+                    formula = ParamFunc(formula, name="_formula")
                 self.del_formula()
                 self.set_formula(formula)
 
